@@ -140,3 +140,9 @@ func SpecBlockMiddle(prefixes []string, body string, hasSuffixes bool) string {
 //@   results r
 //@   loop 0 invariant 0 <= i && i%2 == 0 && len(list)%2 == 0
 //@   loop 0 decreases len(list) - i
+
+// ---- C02 (E): only the flags i and s can reach the leading flag group
+//@ contract flagIsAllowed
+//@   tags C02
+//@   results r
+//@   ensures only-i-and-s: r == (flag == 'i' || flag == 's')
